@@ -58,6 +58,10 @@ type benv struct {
 	fieldMut  map[string]string // "field.Method" -> translated function returning (results, receiver's final value)
 	pkgFuncs  string            // name of the imported package whose translated functions may be called as pkg.F(...)
 	ctxDone   string            // text of the channel a `select` may poll, e.g. "ctx.Done()"
+	// slices that share arrays (viewfn.go)
+	useViews bool
+	views    map[string]view
+	kindOf   map[string]string // kinds of the variables declared in the function (and in inlined helpers)
 }
 
 func (e *benv) bad(n ast.Node, why string) string {
@@ -114,7 +118,7 @@ func bkind(t types.Type) string {
 		if named, ok := t.(*types.Named); ok && named.Obj().Name() == "DataIdentifier" {
 			return "dataid"
 		}
-		if named, ok := t.(*types.Named); ok && named.Obj().Name() == "OutputConfigurationSetting" {
+		if named, ok := t.(*types.Named); ok && (named.Obj().Name() == "OutputConfigurationSetting" || named.Obj().Name() == "CANOutputConfigurationSetting") {
 			return "osetting"
 		}
 	}
@@ -123,6 +127,11 @@ func bkind(t types.Type) string {
 	}
 	if p, ok := t.Underlying().(*types.Pointer); ok && isOConf(p.Elem()) {
 		return "oconf"
+	}
+	if p, ok := t.Underlying().(*types.Pointer); ok {
+		if named, ok := p.Elem().(*types.Named); ok && named.Obj().Name() == "CANOutputConfigurationSetting" {
+			return "osetting"
+		}
 	}
 	return ""
 }
@@ -134,7 +143,7 @@ func isOConf(t types.Type) bool {
 		return false
 	}
 	named, ok := sl.Elem().(*types.Named)
-	return ok && named.Obj().Name() == "OutputConfigurationSetting"
+	return ok && (named.Obj().Name() == "OutputConfigurationSetting" || named.Obj().Name() == "CANOutputConfigurationSetting")
 }
 
 func coqKind(k string) string {
@@ -213,6 +222,11 @@ func (e *benv) intWrap(t types.Type, s string) string {
 }
 
 func (e *benv) expr(n ast.Expr) bex {
+	if e.useViews {
+		if b, ok := e.viewExpr(n); ok {
+			return b
+		}
+	}
 	tv, have := e.x.info.Types[n]
 	if have && tv.Value != nil {
 		if bkind(tv.Type) == "float" {
@@ -252,6 +266,15 @@ func (e *benv) expr(n ast.Expr) bex {
 		if bkind(e.x.info.TypeOf(v.X)) == "osetting" && v.Sel.Name == "OutputFrequency" {
 			a := e.expr(v.X)
 			return e.combine([]bex{a}, func(s []string) string { return "(let '(_, _, _, fr_) := " + s[0] + " in fr_)" })
+		}
+		if bkind(e.x.info.TypeOf(v.X)) == "osetting" {
+			// a CAN output setting = (CANDataIdentifier, CANIDLengthFlag as 0/1, IDMask, OutputFrequency)
+			pat := map[string]string{"CANDataIdentifier": "(let '(f0_, _, _, _) := %s in f0_)", "CANIDLengthFlag": "(let '(_, f1_, _, _) := %s in negb (f1_ =? 0))",
+				"IDMask": "(let '(_, _, f2_, _) := %s in f2_)"}[v.Sel.Name]
+			if pat != "" {
+				a := e.expr(v.X)
+				return e.combine([]bex{a}, func(s []string) string { return fmt.Sprintf(pat, s[0]) })
+			}
 		}
 		if bkind(e.x.info.TypeOf(v.X)) == "osetting" && v.Sel.Name == "DataType" {
 			// promoted from the embedded DataIdentifier
@@ -522,6 +545,34 @@ func (e *benv) expr(n ast.Expr) bex {
 				}
 			}
 		}
+		if sel, ok := v.Fun.(*ast.SelectorExpr); ok && len(v.Args) == 0 && bkind(e.x.info.TypeOf(sel.X)) == "osetting" {
+			if s := e.x.info.Selections[sel]; s != nil && s.Kind() == types.MethodVal {
+				rt := s.Recv()
+				if p, ok := rt.(*types.Pointer); ok {
+					rt = p.Elem()
+				}
+				if named, ok := rt.(*types.Named); ok {
+					if fd := e.x.funcs[named.Obj().Name()+"."+sel.Sel.Name]; fd != nil && len(fd.Body.List) == 1 && len(fd.Recv.List[0].Names) == 1 {
+						if r, ok := fd.Body.List[0].(*ast.ReturnStmt); ok && len(r.Results) == 1 {
+							a := e.expr(sel.X)
+							if !a.pure {
+								return bex{e.bad(n, "receiver with effects"), false}
+							}
+							rn := fd.Recv.List[0].Names[0].Name
+							saved, had := e.vars[rn]
+							e.vars[rn] = a.t
+							out := e.expr(r.Results[0])
+							if had {
+								e.vars[rn] = saved
+							} else {
+								delete(e.vars, rn)
+							}
+							return out
+						}
+					}
+				}
+			}
+		}
 		if sel, ok := v.Fun.(*ast.SelectorExpr); ok && e.pkgFuncs != "" {
 			// pkg.F(args) for a translated function of the imported library
 			if pid, ok := sel.X.(*ast.Ident); ok && pid.Name == e.pkgFuncs {
@@ -701,6 +752,11 @@ func (e *benv) block(stmts []ast.Stmt, ret func([]ast.Expr) string, cont func() 
 			delete(e.vars, name)
 		}
 		return out
+	}
+	if e.useViews {
+		if out, ok := e.viewStmt(stmts[0], rest); ok {
+			return out
+		}
 	}
 	switch s := stmts[0].(type) {
 	case *ast.ReturnStmt:
@@ -1071,6 +1127,25 @@ func (e *benv) block(stmts []ast.Stmt, ret func([]ast.Expr) string, cont func() 
 				}
 			}
 		}
+		if fsel, ok := s.Lhs[0].(*ast.SelectorExpr); ok && s.Tok == token.ASSIGN {
+			if k, isCan := map[string]int{"CANDataIdentifier": 0, "CANIDLengthFlag": 1, "IDMask": 2}[fsel.Sel.Name]; isCan {
+				if ix, ok := fsel.X.(*ast.IndexExpr); ok && bkind(e.x.info.TypeOf(ix.X)) == "oconf" {
+					if rid := rootIdent(ix.X); rid != nil {
+						if cur, okv := e.vars[rid.Name]; okv {
+							i, a := e.expr(ix.Index), e.expr(s.Rhs[0])
+							isBool := bkind(e.x.info.TypeOf(s.Rhs[0])) == "bool"
+							return bindv(rid.Name, e.flatten(e.combine([]bex{i, a}, func(x []string) string {
+								val := x[1]
+								if isBool {
+									val = "(if " + val + " then 1 else 0)"
+								}
+								return fmt.Sprintf("(g_oset_at %s %s %d %s)", cur, x[0], k, val)
+							})))
+						}
+					}
+				}
+			}
+		}
 		if fsel, ok := s.Lhs[0].(*ast.SelectorExpr); ok && fsel.Sel.Name == "OutputFrequency" && s.Tok == token.ASSIGN {
 			if ix, ok := fsel.X.(*ast.IndexExpr); ok && bkind(e.x.info.TypeOf(ix.X)) == "oconf" {
 				if rid := rootIdent(ix.X); rid != nil {
@@ -1212,6 +1287,7 @@ func (e *benv) block(stmts []ast.Stmt, ret func([]ast.Expr) string, cont func() 
 				names = append(names, name)
 			}
 		}
+		names = e.viewLoopState(as, names)
 		sortStrings(names)
 		// the bound must not mention an assigned variable
 		bad := false
@@ -1294,6 +1370,7 @@ func (e *benv) block(stmts []ast.Stmt, ret func([]ast.Expr) string, cont func() 
 				names = append(names, name)
 			}
 		}
+		names = e.viewLoopState(as, names)
 		sortStrings(names)
 		if len(names) == 0 || as[ki.Name] || as[vi.Name] {
 			return e.bad(s, "unsupported range loop (no state, or the loop variables assigned)")
